@@ -22,11 +22,31 @@ def grid():
     return np.linspace(-40.0, 40.0, 3201)
 
 
-def oracle(sc, ci, Z, doms, ys, sem, fold, opt):
-    """compiled integrate(sc,Z) vs brute-force sum / quadrature of compiled sc. Returns (ok, detail)."""
+def oracle(sc, ci, Z, doms, ys, sem, fold, opt, update_rng=None):
+    """compiled integrate(sc,Z) vs brute-force sum / quadrature of compiled sc. Returns (ok, detail).
+    With update_rng: the operand's learnable tensors are first moved in place (the relation must follow)."""
     ctx = evalc.make_ctx(sem, fold, opt)
     cci = ctx.compile(ci)
     csc = ctx.get_compiled_circuit(sc)
+    own = {p.data_ptr() for p in csc.parameters()}
+    extra = [tuple(p.shape) for p in cci.parameters() if p.requires_grad and p.data_ptr() not in own]
+    if extra:
+        return False, {"new_learnable_tensors": extra, "note": "the compiled integral owns learnable tensors that are not the operand's"}
+    if update_rng is not None:
+        import torch
+        from props.C02 import prob_leaves, tensor_leaves
+        state = ctx._compiler.state
+        keep = set()
+        frozen = prob_leaves([sc])
+        for p_ in tensor_leaves([sc]):
+            if id(p_) in frozen and state.has_compiled_parameter(p_):
+                keep.add(state.retrieve_compiled_parameter(p_)[0]._ptensor.data_ptr())
+        with torch.no_grad():
+            seen = set(keep)
+            for p in csc.parameters():
+                if p.requires_grad and p.data_ptr() not in seen:
+                    seen.add(p.data_ptr())
+                    p.add_(torch.tensor(gen.dy(update_rng, 1, 3, 16), dtype=p.dtype))
     w = evalc.width_of(sc)
     got = evalc.evaluate(cci, ci, ys, sem, width=w)
     dz = [v for v in Z if doms[v][0] == "disc"]
@@ -106,6 +126,16 @@ def one_case(rep, cs, seed, i, replaying=False):
     if ok is False:
         rep.violation(sig, "compiled integrate(c, Z) differs from the brute-force sum/integral of compiled c",
                       {"case": desc, "inputs": ys, **detail})
+    elif i % 3 == 0:
+        # the same relation after the operand's parameters moved in place (the integral reads the operand's tensors)
+        try:
+            ok2, detail2 = oracle(sc, ci, Z, g.doms, ys, sem, fold, opt, update_rng=rng)
+        except Exception as e:
+            ok2, detail2 = False, {"exception": repr(e)[:300], "traceback": traceback.format_exc()[-1500:]}
+        rep.count("after-update")
+        if ok2 is False:
+            rep.violation("integrate-stale-after-update", "after an in-place update of the operand's parameters compiled integrate(c, Z) no longer equals the sum/integral of compiled c",
+                          {"case": desc, "inputs": ys, **detail2})
     # nested integration = union
     nested_term = "1"
     ci12 = None
